@@ -87,7 +87,20 @@ func (e *Exec) callValue(s *State, f *Frame, in ssa.Value, fnv Value, args []Val
 		if s.pure == 0 {
 			e.check(s, "nil", e.c.Not(fv.Nil), pos, key)
 		}
-		e.callExternOrHavoc(s, f, "funcvalue:"+cleanHint(fv.Name), sig, args, pos, key, setRes, resType, false)
+		// a function value is known by its source name; `funcvalue:<name>/<n>` (n = number of arguments) takes
+		// precedence, for packages where two parameters of different signatures share a name
+		fname := cleanHint(fv.Name)
+		if c, ok := key.(ssa.CallInstruction); ok {
+			// prefer the name of the variable the function value is called through
+			if n := funcValueName(c.Common().Value); n != "" && e.w.externFor(e.fn, "funcvalue:"+fname) == nil {
+				fname = n
+			}
+		}
+		fkey := "funcvalue:" + fname
+		if e.w.externFor(e.fn, fmt.Sprintf("%s/%d", fkey, len(args))) != nil {
+			fkey = fmt.Sprintf("%s/%d", fkey, len(args))
+		}
+		e.callExternOrHavoc(s, f, fkey, sig, args, pos, key, setRes, resType, false)
 		return
 	}
 	panic(unsupported(fmt.Sprintf("call of %T", fnv)))
@@ -177,9 +190,14 @@ func (e *Exec) atCallAsserts(s *State, f *Frame, full, name string, args []Value
 		}
 		var g, h *Term
 		e.callArgs = args
-		e.withPol(1, func() { g = e.evalClauseEnv(s, f, ac.Expr, nil, nil) })
+		// old(e) in a call-site assertion of the function under proof is e at the function's entry
+		var oc *oldCtx
+		if f.fn == e.fn && e.entryState != nil {
+			oc = &oldCtx{s: e.entryState, env: e.entryVars}
+		}
+		e.withPol(1, func() { g = e.evalClauseEnv(s, f, ac.Expr, nil, oc) })
 		e.emit(s, fmt.Sprintf("call.%d:%s.assert.%d", n, name, i+1), g, pos)
-		e.withPol(-1, func() { h = e.evalClauseEnv(s, f, ac.Expr, nil, nil) })
+		e.withPol(-1, func() { h = e.evalClauseEnv(s, f, ac.Expr, nil, oc) })
 		e.callArgs = nil
 		s.assume(h)
 	}
